@@ -53,9 +53,10 @@ impl SwiftField for Field61 {
         Self: Sized,
     {
         // Format: 6!n[4!n]2a[1!a]15d1!a3!c[16x][//16x][34x]
-        if input.len() < 15 {
+        // date (6) + D/C mark (1) + amount (1) + transaction type (4)
+        if input.len() < 12 {
             return Err(ParseError::InvalidFormat {
-                message: "Field 61 must be at least 15 characters long".to_string(),
+                message: "Field 61 must be at least 12 characters long".to_string(),
             });
         }
         // the components are cut out by byte position: only ASCII content can be sliced safely
@@ -141,7 +142,19 @@ impl SwiftField for Field61 {
         }
 
         let transaction_type = input[pos..pos + 4].to_string();
-        parse_swift_chars(&transaction_type, "Field 61 transaction type")?;
+        // 1!a3!c: one upper-case letter followed by three upper-case letters or digits
+        if !transaction_type.starts_with(|c: char| c.is_ascii_uppercase())
+            || !transaction_type
+                .chars()
+                .all(|c| c.is_ascii_uppercase() || c.is_ascii_digit())
+        {
+            return Err(ParseError::InvalidFormat {
+                message: format!(
+                    "Field 61 transaction type must be 1!a3!c, found {}",
+                    transaction_type
+                ),
+            });
+        }
         pos += 4;
 
         // Parse customer reference (up to 16 characters until // or end)
